@@ -746,6 +746,8 @@ def split_meta_tiles(meta_tile, tiles, tile_size, image_opts):
         if tile_coord is None:
             continue
         data = splitter.get_tile(crop_coord, tile_size)
+        # the image of the tile is as (un)cacheable as the meta tile it was cut from
+        data.cacheable = meta_tile.cacheable
         new_tile = Tile(tile_coord, cacheable=meta_tile.cacheable)
         new_tile.source = data
         split_tiles.append(new_tile)
